@@ -5,7 +5,10 @@ V(l) == [k |-> "visit", line |-> l]
 \* x := 1 ; y := f(x) with f on lines 5..6 ; z := 2        (two nodes per statement line)
 P1 == <<V(1), V(1), V(2), [k |-> "in", line |-> 2], V(5), V(5), V(6), [k |-> "out", line |-> 2], V(2), V(3)>>
 P2 == <<V(1), V(3), V(3)>>
+\* x := 1 ; try { y := f(x) } except { z := 2 } with f on line 5 calling raise: the error leaves raise, then f
+P3 == <<V(1), V(2), [k |-> "in", line |-> 2], V(5), [k |-> "in", line |-> 5], [k |-> "outerr", line |-> 5], [k |-> "outerr", line |-> 2], V(3), V(4)>>
 MCProg == <<P1, P2>>
+MCProgErr == <<P3, P2>>
 MCThreads == {1, 2}
 MCThreads1 == {1}
 MCLines == {2, 5, 6}
